@@ -229,10 +229,23 @@ def gen(rng, idx, tier):
     func = rng.choice(FUNCS)
     kinds = rng.choice([["line", "curve"], ["line", "curve", "qcurve"], ["curve"], ["line", "qcurve"]])
     sparse = rng.random() < 0.3 and func != "compileInterpolatableTTFs"
+    more = {"n_axes": 2} if sparse and rng.random() < 0.4 else {}
     ds = masters.family(rng, kinds=kinds, sparse=sparse, n_glyphs=rng.choice([4, 5, 6, 8]),
                         comp_2x2=rng.random() < 0.35, components=True, missing_glyph=False,
                         extra_glyph=False, rules=0, kerning=rng.choice(["none", "aligned"]),
-                        coord_mode=rng.choice(["int", "half", "float"]))
+                        coord_mode=rng.choice(["int", "half", "float"]), **more)
+    sparse_omits_axis = False
+    if (ds.get("meta") or {}).get("sparse") and len(ds["axes"]) == 2 and rng.random() < 0.6:
+        # the sparse source spells its location without the axis it leaves at the default
+        # (valid: a missing axis means the default)
+        from vf.ref import varmodel as V
+        dflt = V.full_location(ds["axes"], {})
+        for s_ in ds["sources"]:
+            if s_.get("layerName"):
+                for name in list(s_["location"]):
+                    if len(s_["location"]) > 1 and V.fr(s_["location"][name]) == dflt[name]:
+                        del s_["location"][name]
+                        sparse_omits_axis = True
     if rng.random() < 0.8:
         exaggerate(rng, ds)
     if rng.random() < 0.35:
@@ -285,7 +298,7 @@ def gen(rng, idx, tier):
         skip = [rng.choice(pool)]
     filt = rng.choice([None, None, "DecomposeTransformedComponentsFilter", "PropagateAnchorsFilter"])
     return {"func": func, "ds": ds, "opts": opts, "skip": skip, "filter": filt,
-            "stratum": stratum, "support_ufo": support, "lib": rng.choice(["defcon", "ufoLib2"])}
+            "sparse_omits_axis": sparse_omits_axis, "stratum": stratum, "support_ufo": support, "lib": rng.choice(["defcon", "ufoLib2"])}
 
 
 def sample_view(case):
@@ -424,6 +437,8 @@ def run(case):
         if not ln:
             continue
         bump("sparse_masters")
+        if case.get("sparse_omits_axis"):
+            bump("sparse_masters_location_without_default_axis")
         src = ds["sources"][i]
         layer = ds["ufos"][src["ufo"]]["layers"][ln]
         layer_names_set = {g["name"] for g in layer} - set(case["skip"])
@@ -441,6 +456,35 @@ def run(case):
         if extra:
             violations.append({"mech": "sparse_master_unrelated_glyph", "detail": {
                 "master": i, "glyphs": sorted(extra), "layer": sorted(layer_names_set)}})
+        # joint decision to decompose: a glyph whose component references were replaced by
+        # their contents in the full masters, and which (transitively) referred to a glyph this
+        # layer redraws, must be decomposed HERE too (from the composite interpolated at this
+        # location) - otherwise the copies of the layer glyph inside it stay behind
+        dflt_tt = loaded[masters.default_source_index(ds)]
+        by_name = {g["name"]: g for g in default_glyphs}
+        for g in default_glyphs:
+            n = g["name"]
+            if not g["components"] or n in case["skip"] or n not in dflt_tt.getGlyphOrder():
+                continue
+            st = struct(dflt_tt, n)
+            decomposed = (st[0] == "simple") if is_tt else (len(st[1]) > 0)
+            if not decomposed:
+                continue
+            reach, todo = set(), [c["base"] for c in g["components"]]
+            while todo:
+                b = todo.pop()
+                if b in reach or b not in by_name:
+                    continue
+                reach.add(b)
+                todo.extend(c["base"] for c in by_name[b]["components"])
+            hit = reach & layer_names_set & got
+            if not hit:
+                continue
+            bump("decomposed_composites_of_layer_glyphs")
+            if n not in got:
+                violations.append({"mech": "decomposed_composite_missing_from_sparse_master", "detail": {
+                    "master": i, "glyph": n, "layer_glyphs_it_contains": sorted(hit),
+                    "source_location": src["location"], "sparse_master_glyphs": sorted(got)}})
     # ---------------- control: would the masters diverge when compiled alone?
     if is_tt and len(ds["ufos"]) >= 2:
         try:
